@@ -175,25 +175,72 @@ Qed.
 
 Definition bspecial (c : N) : bool := mem_N c bracket_special_chars || mem_N c special_chars.
 
-Ltac mem_true H :=
-  unfold mem_N in H; cbn [existsb] in H; rewrite ?orb_true_iff in H;
-  repeat match type of H with
-         | _ \/ _ => destruct H as [H|H]
-         end;
-  try discriminate H; try (apply N.eqb_eq in H; subst).
+Lemma mem_N_in c l : mem_N c l = true <-> In c l.
+Proof.
+  unfold mem_N. rewrite existsb_exists. split.
+  - intros (x & Hx & E). apply N.eqb_eq in E. subst. exact Hx.
+  - intros H. exists c. split; [exact H|apply N.eqb_refl].
+Qed.
+
+Lemma mem_N_false_in c l x : mem_N c l = false -> In x l -> N.eqb c x = false.
+Proof.
+  intros H Hx. destruct (N.eqb c x) eqn:E; [|reflexivity].
+  apply N.eqb_eq in E. subst x. apply mem_N_in in Hx. congruence.
+Qed.
+
+Lemma mem_N_false_subset c l sub :
+  mem_N c l = false -> forallb (fun x => mem_N x l) sub = true -> mem_N c sub = false.
+Proof.
+  intros H Hs. destruct (mem_N c sub) eqn:E; [|reflexivity].
+  apply mem_N_in in E. rewrite forallb_forall in Hs. specialize (Hs c E). congruence.
+Qed.
+
+(* The facts below are all the development needs to know about the two
+   constants (read from the source on every run): every escaped character
+   can be escaped in the regex syntax and none of them is A or z; every
+   character with a meaning in the regex syntax is among them. *)
+Lemma special_all_escapable : forallb escaped_literal special_chars = true.
+Proof. vm_compute. reflexivity. Qed.
+
+Lemma bracket_special_all_escapable : forallb escaped_literal bracket_special_chars = true.
+Proof. vm_compute. reflexivity. Qed.
+
+Lemma special_none_Az :
+  forallb (fun c => negb (N.eqb c c_A) && negb (N.eqb c c_z)) special_chars = true.
+Proof. vm_compute. reflexivity. Qed.
+
+Definition top_meta : list N :=
+  [c_bslash; c_dot; c_star; c_lbr; c_lpar; c_rpar; c_bar; c_plus; c_quest; c_lbrace; c_rbrace;
+   c_caret; c_dollar; c_rbr].
+
+Lemma top_meta_special : forallb (fun x => mem_N x special_chars) top_meta = true.
+Proof. vm_compute. reflexivity. Qed.
+
+Lemma class_meta_bspecial :
+  forallb (fun x => mem_N x bracket_special_chars || mem_N x special_chars)
+          [c_rbr; c_caret; c_amp; c_hyphen; c_tilde] = true.
+Proof. vm_compute. reflexivity. Qed.
 
 Lemma special_escapable c : mem_N c special_chars = true -> escaped_literal c = true.
-Proof. intros H. unfold special_chars in H. mem_true H; reflexivity. Qed.
+Proof.
+  intros H. apply mem_N_in in H. pose proof special_all_escapable as A.
+  rewrite forallb_forall in A. apply A. exact H.
+Qed.
 
 Lemma bspecial_escapable c : bspecial c = true -> escaped_literal c = true.
 Proof.
   unfold bspecial. intros H. apply orb_true_iff in H as [H|H].
-  - unfold bracket_special_chars in H. mem_true H; reflexivity.
+  - apply mem_N_in in H. pose proof bracket_special_all_escapable as A.
+    rewrite forallb_forall in A. apply A. exact H.
   - apply special_escapable. exact H.
 Qed.
 
 Lemma special_not_Az c : mem_N c special_chars = true -> N.eqb c c_A = false /\ N.eqb c c_z = false.
-Proof. intros H. unfold special_chars in H. mem_true H; split; reflexivity. Qed.
+Proof.
+  intros H. apply mem_N_in in H. pose proof special_none_Az as A.
+  rewrite forallb_forall in A. specialize (A c H). apply andb_true_iff in A as [A1 A2].
+  apply negb_true_iff in A1. apply negb_true_iff in A2. split; assumption.
+Qed.
 
 (* the characters the top level of the regex syntax gives a meaning to *)
 Record top_plain (c : N) : Prop := {
@@ -210,10 +257,15 @@ Record top_plain (c : N) : Prop := {
 
 Lemma not_special_plain c : mem_N c special_chars = false -> top_plain c.
 Proof.
-  unfold mem_N, special_chars. cbn [existsb]. rewrite !orb_false_iff.
-  intros (H1 & H2 & H3 & H4 & H5 & H6 & H7 & H8 & H9 & H10 & H11 & H12 & H13 & H14 & _).
-  constructor; unfold mem_N; cbn [existsb]; rewrite ?H1, ?H2, ?H3, ?H4, ?H5, ?H6, ?H7, ?H8, ?H9,
-    ?H10, ?H11, ?H12, ?H13, ?H14; reflexivity.
+  intros H.
+  assert (G : forall x, In x top_meta -> N.eqb c x = false).
+  { intros x Hx. apply (mem_N_false_in c special_chars x H).
+    pose proof top_meta_special as A. rewrite forallb_forall in A. apply mem_N_in. apply A. exact Hx. }
+  assert (S : forall sub, forallb (fun x => mem_N x top_meta) sub = true -> mem_N c sub = false).
+  { intros sub Hsub. destruct (mem_N c sub) eqn:E; [|reflexivity].
+    apply mem_N_in in E. rewrite forallb_forall in Hsub. specialize (Hsub c E).
+    apply mem_N_in in Hsub. specialize (G c Hsub). rewrite N.eqb_refl in G. discriminate. }
+  constructor; try (apply G; cbn; tauto); apply S; vm_compute; reflexivity.
 Qed.
 
 (* ... and inside a class *)
@@ -228,13 +280,12 @@ Record class_plain (c : N) : Prop := {
 
 Lemma not_bspecial_plain c : bspecial c = false -> class_plain c.
 Proof.
-  unfold bspecial. rewrite orb_false_iff. intros [Hb Hs].
-  pose proof (not_special_plain c Hs) as Ht.
-  unfold mem_N, bracket_special_chars in Hb. cbn [existsb] in Hb. rewrite !orb_false_iff in Hb.
-  destruct Hb as (H1 & H2 & H3 & _).
-  unfold mem_N, special_chars in Hs. cbn [existsb] in Hs. rewrite !orb_false_iff in Hs.
-  destruct Hs as (_ & _ & _ & _ & _ & _ & _ & _ & _ & H10 & _ & _ & H13 & _).
-  constructor; assumption.
+  unfold bspecial. intros H. pose proof H as H0. apply orb_false_iff in H as [Hb Hs].
+  assert (G : forall x, In x [c_rbr; c_caret; c_amp; c_hyphen; c_tilde] -> N.eqb c x = false).
+  { intros x Hx. destruct (N.eqb c x) eqn:E; [|reflexivity]. apply N.eqb_eq in E. subst x.
+    pose proof class_meta_bspecial as A. rewrite forallb_forall in A. specialize (A c Hx).
+    congruence. }
+  constructor; [apply not_special_plain; exact Hs| | | | |]; apply G; cbn; tauto.
 Qed.
 
 Lemma fmt_char_b_cases c :
